@@ -839,11 +839,25 @@ pub fn strip_pre(s: &mut Spec) {
 
 pub fn run_cfg(cfg: &RunCfg, trace: bool) -> RunOut {
     match cfg.property.as_str() {
-        "C01" | "C09" | "C11" => run_contract(cfg, trace, &mut contract_monitor),
+        "C01" | "C09" => run_contract(cfg, trace, &mut contract_monitor),
+        "C11" => run_contract(cfg, trace, &mut |cx, i, op, b, w, g, s| {
+            // recursive and transfer operations only
+            let rel = |op: &Op| matches!(op, Op::CreateDirAll(_) | Op::RemoveDirAll(_) | Op::CopyFile(..) | Op::MoveFile(..) | Op::CopyDir(..) | Op::MoveDir(..));
+            scoped_monitor(cx, i, op, b, w, g, s, &rel, &|_| true)
+        }),
         "C10" => crate::mon_overlay::run_c10(cfg, trace),
         "C03" | "C05" => crate::mon_invariant::run(cfg, trace),
         "C12" => crate::mon_err::run(cfg, trace),
-        "C04" => run_contract(cfg, trace, &mut contract_monitor),
+        "C04" => run_contract(cfg, trace, &mut |cx, i, op, b, w, g, s| {
+            // data-bearing operations; snapshot fields bytes / metadata (length)
+            let rel = |op: &Op| {
+                matches!(
+                    op,
+                    Op::Write { .. } | Op::OpenWrite { .. } | Op::HWrite(..) | Op::HSeek(..) | Op::HFlush(_) | Op::HDrop(_) | Op::ReadFile(..) | Op::ReadToString(_) | Op::Metadata(_) | Op::CopyFile(..) | Op::MoveFile(..) | Op::CopyDir(..) | Op::MoveDir(..)
+                )
+            };
+            scoped_monitor(cx, i, op, b, w, g, s, &rel, &|f| f == "bytes" || f == "metadata")
+        }),
         "C14" => crate::mon_bytes::run_c14(cfg, trace),
         "C19" => crate::mon_time::run_c19(cfg, trace),
         "C20" => crate::mon_fault::run_c20(cfg, trace),
@@ -871,6 +885,7 @@ pub fn engine_of(prop: &str) -> &'static str {
 pub fn gen_any(prop: &str, seed: u64) -> Value {
     match engine_of(prop) {
         "seq" => serde_json::to_value(gen_cfg(prop, seed)).unwrap(),
+        "conc" => serde_json::to_value(gen_conc(prop, seed)).unwrap(),
         e => panic!("engine {} not built yet", e),
     }
 }
@@ -881,11 +896,199 @@ pub fn run_any(prop: &str, cfg: &Value, trace: bool) -> RunOut {
             Ok(c) => run_cfg(&c, trace),
             Err(e) => RunOut { harness_error: Some(format!("bad cfg: {}", e)), ..Default::default() },
         },
+        "conc" => match serde_json::from_value::<crate::conc::ConcCfg>(cfg.clone()) {
+            Ok(c) => crate::conc::run_conc(&c, trace),
+            Err(e) => RunOut { harness_error: Some(format!("bad cfg: {}", e)), ..Default::default() },
+        },
         e => RunOut { harness_error: Some(format!("engine {} not built yet", e)), ..Default::default() },
     }
 }
 
+pub fn gen_conc(prop: &str, seed: u64) -> crate::conc::ConcCfg {
+    use crate::conc::ConcCfg;
+    use crate::stack::Pre;
+    let mut rng = Rng::new(seed);
+    let mut next_payload = 1u32;
+    let mut payload = |rng: &mut Rng| {
+        let id = next_payload;
+        next_payload += 1;
+        Payload { id, len: rng.range(1, 6) as u32, utf8: true }
+    };
+    if prop == "C16" {
+        // small universe of overlapping paths
+        let universes: [&[&str]; 3] = [&["/a", "/a/b", "/b", "/a/c"], &["/a", "/ab", "/a/a"], &["/d", "/d/e", "/d/e/f"]];
+        let uni = universes[rng.below(3)];
+        let mut pre = vec![];
+        let mut model = Model::new();
+        for p in uni.iter() {
+            if model.is_dir(&parent_of(p)) && rng.pct(45) {
+                if rng.pct(55) {
+                    model.t.insert(p.to_string(), Node::Dir);
+                    pre.push(Pre { path: p.to_string(), file: None });
+                } else {
+                    let pl = payload(&mut rng);
+                    model.t.insert(p.to_string(), Node::File(std::sync::Arc::new(pl.bytes())));
+                    pre.push(Pre { path: p.to_string(), file: Some(pl) });
+                }
+            }
+        }
+        let nthreads = if rng.pct(70) { 2 } else { 3 };
+        let mut program: Vec<Vec<Op>> = vec![vec![]; nthreads];
+        let mut budget: i32 = 9;
+        for t in 0..nthreads {
+            let calls = rng.range(1, 3);
+            for c in 0..calls {
+                let p = P::new(uni[rng.below(uni.len())]);
+                let k = rng.weighted(&[20, 15, 10, 12, 15, 8, 6, 7, 7]);
+                let cost = if k == 1 || k == 2 { 3 } else { 1 };
+                if budget - cost < (nthreads - t - 1) as i32 {
+                    break;
+                }
+                budget -= cost;
+                let slot = c as u8;
+                match k {
+                    0 => program[t].push(Op::CreateDir(p)),
+                    1 | 2 => {
+                        program[t].push(Op::OpenWrite { p, append: k == 2, slot });
+                        program[t].push(Op::HWrite(slot, payload(&mut rng)));
+                        program[t].push(Op::HDrop(slot));
+                    }
+                    3 => program[t].push(Op::RemoveFile(p)),
+                    4 => program[t].push(Op::RemoveDir(p)),
+                    5 => program[t].push(Op::Exists(p)),
+                    6 => program[t].push(Op::Metadata(p)),
+                    7 => program[t].push(Op::ReadDir(p)),
+                    _ => program[t].push(Op::ReadFile(p, 64)),
+                }
+            }
+            if program[t].is_empty() {
+                program[t].push(Op::Exists(P::new(uni[0])));
+                budget -= 1;
+            }
+        }
+        return ConcCfg { property: prop.into(), seed, spec: Spec::Mem { pre }, program, n_schedules: 60, schedule: None, sched_fs: false };
+    }
+    // C17
+    let names = ["a", "b", "c"];
+    let spec = match rng.weighted(&[30, 15, 15, 10, 12, 8, 10]) {
+        0 => Spec::Mem { pre: vec![] },
+        1 => Spec::Alt { inner: Box::new(Spec::Mem { pre: vec![] }), p: "/ALTROOT_p".into() },
+        2 => Spec::Ovl { layers: vec![Spec::Mem { pre: vec![] }, Spec::Mem { pre: vec![] }] },
+        3 => Spec::Ovl { layers: vec![Spec::Mem { pre: vec![] }] },
+        4 => Spec::Phys { pre: vec![] },
+        5 => Spec::Alt { inner: Box::new(Spec::Phys { pre: vec![] }), p: "/ALTROOT_p".into() },
+        _ => Spec::Ovl { layers: vec![Spec::Phys { pre: vec![] }, Spec::Mem { pre: vec![] }] },
+    };
+    let mut spec = spec;
+    let nthreads = rng.range(2, 4);
+    // a common chain; every thread follows it with high probability, so prefixes of every length are shared
+    let chain: Vec<&str> = (0..4).map(|_| names[rng.below(3)]).collect();
+    let mut program = vec![];
+    for _ in 0..nthreads {
+        let mut calls = vec![];
+        for _ in 0..(if rng.pct(30) { 2 } else { 1 }) {
+            let depth = rng.range(1, 4);
+            let mut p = String::new();
+            let mut follow = true;
+            for d in 0..depth {
+                follow = follow && rng.pct(75);
+                p.push('/');
+                p.push_str(if follow { chain[d] } else { names[rng.below(3)] });
+            }
+            calls.push(Op::CreateDirAll(P::new(&p)));
+        }
+        program.push(calls);
+    }
+    if rng.pct(40) {
+        // pre-existing prefix directories
+        let d = rng.range(1, 3);
+        let mut p = String::new();
+        let mut pre = vec![];
+        for c in chain.iter().take(d) {
+            p.push('/');
+            p.push_str(c);
+            pre.push(Pre { path: p.clone(), file: None });
+        }
+        push_pre(&mut spec, pre);
+    }
+    let sched_fs = spec.has_phys() || rng.pct(30);
+    ConcCfg { property: prop.into(), seed, spec, program, n_schedules: 60, schedule: None, sched_fs }
+}
+
+fn push_pre(spec: &mut Spec, pre: Vec<crate::stack::Pre>) {
+    match spec {
+        Spec::Mem { pre: p } | Spec::Phys { pre: p } => p.extend(pre),
+        Spec::Emb => {}
+        Spec::Alt { inner, p } => {
+            let pp = p.clone();
+            push_pre(inner, pre.into_iter().map(|e| crate::stack::Pre { path: format!("{}{}", pp, e.path), file: e.file }).collect())
+        }
+        Spec::Ovl { layers } => {
+            let n = layers.len();
+            push_pre(&mut layers[n - 1], pre)
+        }
+    }
+}
+
+fn shrink_conc(cfg: &Value) -> Vec<Value> {
+    let c: crate::conc::ConcCfg = match serde_json::from_value(cfg.clone()) {
+        Ok(c) => c,
+        Err(_) => return vec![],
+    };
+    let mut out: Vec<crate::conc::ConcCfg> = vec![];
+    let sched = c.schedule.clone().unwrap_or_default();
+    // fewer context switches: let the previous thread continue
+    for i in 1..sched.len() {
+        if sched[i] != sched[i - 1] {
+            let mut t = c.clone();
+            let mut s2 = sched.clone();
+            s2[i] = s2[i - 1];
+            t.schedule = Some(s2);
+            out.push(t);
+        }
+    }
+    // drop a whole thread
+    if c.program.len() > 2 {
+        for t in 0..c.program.len() {
+            let mut n = c.clone();
+            n.program.remove(t);
+            n.schedule = Some(sched.iter().filter(|d| **d as usize != t).map(|d| if (*d as usize) > t { d - 1 } else { *d }).collect());
+            out.push(n);
+        }
+    }
+    // drop one call (a session = open, write, drop goes as a unit)
+    for t in 0..c.program.len() {
+        let prog = &c.program[t];
+        let mut j = 0;
+        while j < prog.len() {
+            let span = if matches!(prog[j], Op::OpenWrite { .. }) { 3 } else { 1 };
+            if prog.len() > span || c.program.len() > 1 {
+                let mut n = c.clone();
+                n.program[t].drain(j..(j + span).min(prog.len()));
+                if !n.program[t].is_empty() {
+                    out.push(n);
+                }
+            }
+            j += span;
+        }
+    }
+    // simplify initial content
+    if let Spec::Mem { pre } = &c.spec {
+        for i in (0..pre.len()).rev() {
+            let p = pre[i].path.clone();
+            let v: Vec<_> = pre.iter().filter(|e| e.path != p && !is_under(&e.path, &p)).cloned().collect();
+            let mut n = c.clone();
+            n.spec = Spec::Mem { pre: v };
+            out.push(n);
+        }
+    }
+    out.into_iter().map(|c| serde_json::to_value(c).unwrap()).collect()
+}
+
 pub fn shape_of(cfg: &Value) -> String {
+    if let Ok(s) = serde_json::from_value::<Spec>(cfg["spec"].clone()) {
+        return s.shape();
+    }
     match serde_json::from_value::<Vec<Spec>>(cfg["specs"].clone()) {
         Ok(specs) => specs.iter().map(|s| s.shape()).collect::<Vec<_>>().join("+"),
         Err(_) => cfg["shape"].as_str().unwrap_or("?").to_string(),
@@ -893,6 +1096,9 @@ pub fn shape_of(cfg: &Value) -> String {
 }
 
 pub fn sample_of(cfg: &Value) -> Value {
+    if cfg.get("program").is_some() {
+        return json!({"stack": shape_of(cfg), "seed": cfg["seed"], "threads": cfg["program"], "schedules_per_program": cfg["n_schedules"]});
+    }
     let ops: Vec<String> = cfg["ops"].as_array().map(|a| a.iter().take(12).map(|o| o.to_string()).collect()).unwrap_or_default();
     json!({"stack": shape_of(cfg), "seed": cfg["seed"], "first_ops": ops, "n_ops": cfg["ops"].as_array().map(|a| a.len())})
 }
@@ -1027,6 +1233,9 @@ fn shrink_op(op: &Op) -> Vec<Op> {
 }
 
 pub fn shrink_candidates(prop: &str, cfg: &Value, v: &Violation) -> Vec<Value> {
+    if engine_of(prop) == "conc" {
+        return shrink_conc(cfg);
+    }
     if engine_of(prop) != "seq" {
         return vec![];
     }
